@@ -791,7 +791,7 @@ func main() {
 	group.DataDirectory = filepath.Join(root, "data")
 	os.MkdirAll(group.Directory, 0o755)
 	os.MkdirAll(group.DataDirectory, 0o755)
-	n := run.Pick(1200, 60000)
+	n := run.Pick(1200, 40000)
 	light := os.Getenv("VERIF_LIGHT") == "1"
 	if light {
 		// the pass with the light vsync variant (race hunting): a third of the histories,
